@@ -23,6 +23,12 @@ class SuccessionDiagramState(TypedDict):
     The network rules as an `.aeon` formatted string.
     """
 
+    network: ba.BooleanNetwork
+    """
+    The network itself (the `.aeon` string does not preserve the variable order
+    and drops input variables that regulate nothing).
+    """
+
     petri_net: nx.DiGraph
     """
     The Petri net representation of the network rules (see :mod:`biobalm.petri_net_translation`).
